@@ -19,23 +19,50 @@ def r04a(model: Model, rr: RuleResult):
     sites = [("write_glyphmap", "_glyphmappings", 1), ("features", "generate_fea", 2), ("write_font", "_ensure_codepoints_will_have_glyphs", 1)]
     for modname, fn, n in sites:
         fi = model.func(modname, fn)
-        cs = [c for c in calls_in(fi, nested=True) if model.resolve_call(fi, c) is target]
+        from ..model import new_helpers_called as _nh
+        cs = [c for hf in [fi] + list(_nh(fi)) for c in calls_in(hf, nested=True) if model.resolve_call(hf, c) is target]
         if len(cs) >= n:
             rr.ok(f"{modname}.{fn}: {len(cs)} call(s) to glyph.glyph_name")
         else:
             rr.bad_shape(fi, fi.node, f"{modname}.{fn} no longer derives glyph names with glyph.glyph_name ({len(cs)} of {n} calls): names written to the "
                    f"glyph map, referenced by the ligature rules and created for blank glyphs would disagree", construct=f"{modname}.{fn}: glyph_name calls {len(cs)}/{n}")
     g = model.func("features", "generate_fea")
-    t = " ".join(norm(st) for st in ast.walk(g.node) if isinstance(st, ast.Assign))
-    if "glyphs = [glyph_name(cp) for cp in rgi]" in t and "target = glyph_name(rgi)" in t:
-        rr.ok("ligature rule: components = glyph_name(each codepoint), target = glyph_name(whole sequence)")
+    # the ligature rule text, wherever it is built (generate_fea or a helper it newly calls) and however it is spelled (% / f-string / format)
+    from ..dataflow import format_parts, format_template, resolved
+    from ..model import new_helpers_called
+    found = []
+    for hf in [g] + list(new_helpers_called(g)):
+        hcfg = cfg_of(hf)
+        for n in walk_body(hf):
+            if isinstance(n, (ast.JoinedStr, ast.BinOp, ast.Call)):
+                parts = format_parts(n)
+                if parts and format_template(parts).strip().startswith("sub ") and len([1 for k, _ in parts if k == "expr"]) >= 2:
+                    found.append((hf, hcfg, n, parts))
+    if len(found) == 1:
+        hf, hcfg, n, parts = found[0]
+        tmpl = format_template(parts).strip()
+        ex = [resolved(hcfg, hcfg.node_for(n), x) for k, x in parts if k == "expr"]
+
+        def comps_of(e):
+            """' '.join(glyph_name(v) for v in S) -> S"""
+            if isinstance(e, ast.Call) and isinstance(e.func, ast.Attribute) and e.func.attr == "join" and isinstance(e.func.value, ast.Constant) and e.func.value.value == " " \
+                    and len(e.args) == 1 and isinstance(e.args[0], (ast.GeneratorExp, ast.ListComp)) and len(e.args[0].generators) == 1 and not e.args[0].generators[0].ifs:
+                c, gen = e.args[0].elt, e.args[0].generators[0]
+                if isinstance(c, ast.Call) and callee_tail(c) == "glyph_name" and len(c.args) == 1 and norm(c.args[0]) == norm(gen.target):
+                    return norm(gen.iter)
+            return None
+
+        def target_of(e):
+            return norm(e.args[0]) if isinstance(e, ast.Call) and callee_tail(e) == "glyph_name" and len(e.args) == 1 and not e.keywords else None
+        if tmpl == "sub {} by {};" and comps_of(ex[0]) is not None and comps_of(ex[0]) == target_of(ex[1]):
+            rr.ok("ligature rule: components = glyph_name(each codepoint), target = glyph_name(whole sequence)")
+            rr.ok("rule text: sub <components> by <target>;")
+        elif tmpl != "sub {} by {};" or (comps_of(ex[1]) is not None and target_of(ex[0]) is not None):
+            rr.bad(hf, n, "ligature rule text is not 'sub <components> by <target>;'", construct="generate_fea: rule text")
+        else:
+            rr.bad_shape(hf, n, "ligature components/target are not named from each codepoint / the whole sequence", construct="generate_fea: glyphs/target")
     else:
-        rr.bad(g, g.node, "ligature components/target are not named from each codepoint / the whole sequence", construct="generate_fea: glyphs/target")
-    sub = [n for n in ast.walk(g.node) if isinstance(n, ast.BinOp) and isinstance(n.op, ast.Mod) and isinstance(n.left, ast.Constant) and "sub" in str(n.left.value)]
-    if sub and str(sub[0].left.value).strip() == "sub %s by %s;" and norm(sub[0].right) == "(' '.join(glyphs), target)":
-        rr.ok("rule text: sub <components> by <target>;")
-    else:
-        rr.bad(g, g.node, "ligature rule text is not 'sub <components> by <target>;'", construct="generate_fea: rule text")
+        rr.bad_shape(g, g.node, "ligature rule text is not 'sub <components> by <target>;'", construct="generate_fea: rule text")
     # census of the statement kinds generate_fea can emit: one ligature lookup, nothing that restructures it
     kinds = {}
     for c in calls_in(g):
@@ -231,27 +258,35 @@ def r04c(model: Model, rr: RuleResult):
 def r04d(model: Model, rr: RuleResult):
     afi = model.func("color_glyph", "_advance_width")
     rets = [st for st in walk_body(afi) if isinstance(st, ast.Return)]
-    ok = len(rets) == 1 and isinstance(rets[0].value, ast.Call) and norm(rets[0].value.func) == "max" and len(rets[0].value.args) == 2
+    from ..dataflow import resolved, inline_new_helpers
+    acfg = cfg_of(afi)
+    val = inline_new_helpers(resolved(acfg, acfg.node_for(rets[0]), rets[0].value), afi) if len(rets) == 1 and rets[0].value is not None else None
+    if isinstance(val, ast.Call):
+        val = ast.Call(func=val.func, args=[inline_new_helpers(resolved(acfg, acfg.node_for(rets[0]), x), afi) for x in val.args], keywords=val.keywords)
+    ok = isinstance(val, ast.Call) and norm(val.func) == "max" and len(val.args) == 2 and not val.keywords
+    EM = "config.ascender - config.descender"
     if ok:
-        a = [norm(x) for x in rets[0].value.args]
-        ok = "config.width" in a and any(x.startswith("round(") and "view_box.w / view_box.h" in x and "font_height" in x for x in a)
-    if ok:
-        rr.ok("_advance_width = max(config.width, round(font_height * vb.w / vb.h))")
+        a = sorted(norm(x) for x in val.args)
+        want = [f"round(({EM}) * view_box.w / view_box.h)", f"round(view_box.w * ({EM}) / view_box.h)", f"round(({EM}) * (view_box.w / view_box.h))"]
+        if a[0] == "config.width" and a[1] in want:
+            rr.ok("_advance_width = max(config.width, round(em height * vb.w / vb.h))")
+            rr.ok("em height = ascender - descender")
+        elif a[0] == "config.width" and a[1].startswith("round(") and "view_box.w" in a[1] and "view_box.h" in a[1] and EM not in a[1]:
+            rr.bad(afi, afi.node, "em height is not ascender - descender", construct="_advance_width: font_height")
+        else:
+            rr.bad_shape(afi, afi.node, "advance rule is not max(config.width, round(em height x vb.w / vb.h))", construct="_advance_width: return")
     else:
-        rr.bad(afi, afi.node, "advance rule is not max(config.width, round(em height x vb.w / vb.h))", construct="_advance_width: return")
-    fh = [st for st in walk_body(afi) if isinstance(st, ast.Assign) and norm(st.targets[0]) == "font_height"]
-    if fh and norm(fh[0].value) == "config.ascender - config.descender":
-        rr.ok("em height = ascender - descender")
-    else:
-        rr.bad(afi, afi.node, "em height is not ascender - descender", construct="_advance_width: font_height")
+        rr.bad_shape(afi, afi.node, "advance rule is not max(config.width, round(em height x vb.w / vb.h))", construct="_advance_width: return")
     c = model.func("color_glyph", "ColorGlyph.create")
     cfg = cfg_of(c)
     w = [st for st in walk_body(c) if isinstance(st, ast.Assign) and norm(st.targets[0]) == "base_glyph.width"]
     ok2 = False
     extra_guard = None
+    from ..guards import value_cases
     for st in w:
-        if "_advance_width(view_box, font_config)" in norm(st.value):
-            facts = [(norm(e), pol) for e, pol in guard_facts(cfg, cfg.node_for(st))]
+        for v, facts in value_cases(cfg, st):
+            if "_advance_width(view_box, font_config)" not in norm(v):
+                continue
             ok2 = facts == [("view_box is not None", True)]
             if not ok2 and ("view_box is not None", True) in facts:
                 extra_guard = (st, [f for f in facts if f != ("view_box is not None", True)])
